@@ -4,7 +4,9 @@ use serde_json::Value;
 pub mod c01;
 pub mod c02;
 pub mod c03;
+pub mod c04;
 pub mod c05;
+pub mod c07;
 pub mod c09;
 pub mod search_common;
 pub mod c10;
@@ -16,7 +18,9 @@ pub fn run(id: &str, tier: Tier) -> i32 {
         "C01" => c01::run(tier),
         "C02" => c02::run(tier),
         "C03" => c03::run(tier),
+        "C04" => c04::run(tier),
         "C05" => c05::run(tier),
+        "C07" => c07::run(tier),
         "C09" => c09::run(tier),
         "C10" => c10::run(tier),
         "C11" => c11::run(tier),
@@ -33,7 +37,9 @@ pub fn replay(id: &str, case: &Value) -> i32 {
         "C01" => c01::replay(case),
         "C02" => c02::replay(case),
         "C03" => c03::replay(case),
+        "C04" => c04::replay(case),
         "C05" => c05::replay(case),
+        "C07" => c07::replay(case),
         "C09" => c09::replay(case),
         "C10" => c10::replay(case),
         "C11" => c11::replay(case),
